@@ -333,6 +333,11 @@ fn emit_nodes_with_continuation(
                 out.push(json!("/ev"));
                 out.push(json!("->->"));
             }
+            Node::ThreadDivert(divert) if divert.target == "END" || divert.target == "DONE" => {
+                // `<- END` / `<- DONE` name no content to fork into: as in inklecate they are
+                // the plain end / done commands
+                out.push(json!(if divert.target == "END" { "end" } else { "done" }));
+            }
             Node::ThreadDivert(divert) => {
                 // <- target(args): ev, arg1, arg2, ..., /ev, "thread", {->: target}
                 if !divert.arguments.is_empty() {
